@@ -38,6 +38,12 @@ TEMPLATES = {
     "co2": ([6, 8, 8], [[0, 0, 0], [0, 0, 1.16], [0, 0, -1.16]]),
     "hcn": ([1, 6, 7], [[0, 0, -1.06], [0, 0, 0], [0, 0, 1.16]]),
     "methane": ([6, 1, 1, 1, 1], [[0, 0, 0], [0.63, 0.63, 0.63], [-0.63, -0.63, 0.63], [-0.63, 0.63, -0.63], [0.63, -0.63, -0.63]]),
+    # chains: the order in which the atoms are LISTED is shuffled below, so a child can come before the atom that connects it
+    "ethane": ([6, 6, 1, 1, 1, 1, 1, 1], [[0, 0, 0], [1.53, 0, 0], [-0.36, 1.03, 0], [-0.36, -0.51, 0.89], [-0.36, -0.51, -0.89],
+                                          [1.89, -1.03, 0], [1.89, 0.51, -0.89], [1.89, 0.51, 0.89]]),
+    "c3": ([6, 6, 6], [[0, 0, 0], [1.3, 0.75, 0], [2.6, 0, 0]]),
+    "c5": ([6] * 5, [[1.3 * i, 0.75 * (i % 2), 0] for i in range(5)]),
+    "rod": ([6] * 16, [[1.3 * i, 0, 0] for i in range(16)]),
 }
 
 
@@ -64,19 +70,55 @@ def make_crystal(rng):
     from scipy.spatial import cKDTree
     for _ in range(80):
         n, kind = rng.choice(SETTINGS)
+        names = [rng.choice(list(TEMPLATES)) for _ in range(rng.choice([1, 1, 2, 2, 3]))]
+        if "rod" in names:
+            names = ["rod"]                       # a molecule several times longer than a short cell axis
+            n, kind = rng.choice([(1, "short"), (2, "short")])
+        elif rng.random() < 0.25:
+            n, kind = rng.choice([(2, "oblique"), (14, "oblique"), (4, "oblique")])
         sg = SpaceGroup(n)
         L = lambda lo=8, hi=14: rng.uniform(lo, hi)
         uc = {"tric": lambda: UnitCell.from_lengths_and_angles([L(), L(), L()], [math.radians(rng.uniform(75, 110)) for _ in range(3)]),
               "mono": lambda: UnitCell.monoclinic(L(), L(), L(), math.radians(rng.uniform(95, 120))),
               "ortho": lambda: UnitCell.orthorhombic(L(), L(), L()), "tetra": lambda: UnitCell.tetragonal(L(9, 13), L(9, 15)),
               "hex": lambda: UnitCell.hexagonal(L(10, 14), L(8, 13)), "hexR": lambda: UnitCell.hexagonal(L(13, 17), L(9, 13)),
-              "cubic": lambda: UnitCell.cubic(L(11, 15))}[kind]()
-        names = [rng.choice(list(TEMPLATES)) for _ in range(rng.choice([1, 1, 2, 2, 3]))]
+              "cubic": lambda: UnitCell.cubic(L(11, 15)),
+              "oblique": lambda: UnitCell.monoclinic(L(7, 10), L(8, 11), L(9, 12), math.radians(rng.uniform(120, 136))),
+              "short": lambda: UnitCell.from_lengths_and_angles([L(4.0, 5.0), L(28, 34), L(11, 14)], [math.radians(rng.uniform(85, 95)) for _ in range(3)])}[kind]()
         zs, cart, owner = [], [], []
         for k, nm in enumerate(names):
             z, p = TEMPLATES[nm]
-            o = np.array([rng.uniform(-0.3, 1.3) for _ in range(3)]) @ np.asarray(uc.direct)   # anywhere relative to the cell faces
-            P = o + np.array(p) @ rot(rng)
+            perm = list(range(len(z)))
+            if rng.random() < 0.6:
+                rng.shuffle(perm)                 # listing order is not parent-before-child
+            z, p = [z[i] for i in perm], [p[i] for i in perm]
+            o = np.array([rng.uniform(-1.3, 2.3) if rng.random() < 0.3 else rng.uniform(-0.3, 1.3) for _ in range(3)]) @ np.asarray(uc.direct)
+            if kind == "oblique" and k == 0 and len(z) >= 2 and rng.random() < 0.6:
+                # a bond along a* (perpendicular to the b-c face) leaving the cell through the face x = 1: the partner atom is further
+                # from the cell in FRACTIONAL terms than its Cartesian distance over |a| suggests
+                Dm = np.asarray(uc.direct)
+                astar = np.linalg.inv(Dm)[:, 0]
+                astar = astar / np.linalg.norm(astar)
+                q = np.array(p, dtype=float)
+                # the first two LISTED atoms that are bonded in the template
+                b0 = q[1] - q[0]
+                b0 = b0 / np.linalg.norm(b0)
+                v = np.cross(b0, astar)
+                cth = float(np.dot(b0, astar))
+                if np.linalg.norm(v) > 1e-8:
+                    vx = np.array([[0, -v[2], v[1]], [v[2], 0, -v[0]], [-v[1], v[0], 0]])
+                    Rr = np.eye(3) + vx + vx @ vx * (1 / (1 + cth))
+                else:
+                    Rr = np.eye(3)
+                o = np.array([rng.uniform(0.95, 0.995), rng.uniform(0.2, 0.8), rng.uniform(0.2, 0.8)]) @ Dm
+                P = o + (q - q[0]) @ Rr.T
+            elif nm == "rod":
+                # tilted about 60 degrees from the short axis, in the a-b plane
+                t = math.radians(rng.uniform(50, 70))
+                Rr = np.array([[math.cos(t), math.sin(t), 0], [-math.sin(t), math.cos(t), 0], [0, 0, 1]])
+                P = o + np.array(p) @ Rr
+            else:
+                P = o + np.array(p) @ rot(rng)
             zs += z
             cart += list(P)
             owner += [k] * len(z)
@@ -251,7 +293,7 @@ def judge(seed):
 
 
 def search(ctx, budget):
-    n = 40 if budget == "quick" else 900
+    n = 90 if budget == "quick" else 1500
     for _ in range(n):
         seed = ctx.rng.randrange(1 << 30)
         try:
